@@ -17,6 +17,7 @@ import (
 	"strings"
 	"sync"
 	"time"
+	"unsafe"
 
 	"github.com/gkampitakis/go-snaps/snaps"
 )
@@ -83,6 +84,21 @@ func NewSched() *Sched {
 	return &Sched{byGID: map[int64]*task{}, Sites: map[string]int{}, pendingW: map[string]int{}}
 }
 
+// boundReceiver returns the receiver a method value such as mu.Lock is bound to: a func
+// value points to a closure record whose first word is the code pointer and, for a bound
+// method, whose second word is the receiver (gc toolchain layout; 0 when it does not look
+// like one, which only makes the model coarser).
+func boundReceiver(f func()) uintptr {
+	if f == nil {
+		return 0
+	}
+	rec := *(*unsafe.Pointer)(unsafe.Pointer(&f))
+	if rec == nil {
+		return 0
+	}
+	return (*[2]uintptr)(rec)[1]
+}
+
 // lockSite splits an instrumented lock site ("snapshot.go:222 _m.RLock") into the mutex
 // expression and whether the write lock is requested.
 func lockSite(site string) (mutex string, write bool) {
@@ -120,6 +136,9 @@ func (s *Sched) Install() {
 			return
 		}
 		mtx, write := lockSite(site)
+		// two mutexes may be written the same way in the source (`l.Lock()` on a per-file
+		// lock): tell them apart by the receiver bound into the method value
+		mtx = fmt.Sprintf("%s@%x", mtx, boundReceiver(lock))
 		if write {
 			s.mu.Lock()
 			s.pendingW[mtx]++
